@@ -220,7 +220,8 @@ class Statement(object):
             expression_offset = other_value.int
 
         range_count = range(this_index, rel_index)
-        if rel_index < this_index:
+        if rel_index <= this_index:
+            # a reference to the statement's own label is a backward reference over the statement itself
             positive_range = False
             range_count = range(rel_index, this_index)
 
